@@ -48,12 +48,17 @@ def rigid_spec(draw, identity_ok=True):
 
 @st.composite
 def grid_spec(draw, dims=(1, 2, 3), kinds=None, max_n=4, max_n3=3, perturb=True, max_amp=0.2, rigid=True,
-              affine=True, gmsh=False, poly=True, scales=False):
+              affine=True, gmsh=False, poly=True, scales=False, arrow=False):
     dim = draw(st.sampled_from(list(dims)))
     allowed = {1: ["cart", "tensor"], 2: ["cart", "tensor", "tri"] + (["poly"] if poly else []),
                3: ["cart", "tensor", "tet"] + (["polyx", "polyx"] if poly else [])}[dim]
     if gmsh and dim >= 2:
         allowed = allowed + ["gmsh"]
+    if arrow and dim == 3:
+        # prisms over an arrow-head quadrilateral and a triangle: 3-d cells with strongly non-convex faces whose node
+        # mean lies outside the face (porepy's 3-d face areas are inexact there, but the geometry must still be
+        # equivariant); only offered to checks that ask for it
+        allowed = allowed + ["arrowx"]
     if kinds is not None:
         allowed = [k for k in allowed if k in kinds]
         if not allowed:
@@ -80,18 +85,25 @@ def grid_spec(draw, dims=(1, 2, 3), kinds=None, max_n=4, max_n3=3, perturb=True,
         s["coords"] = coords
     else:
         s["phys"] = [draw(_f(0.5, 3.0)) for _ in range(ld)]
+    if kind == "cart" and draw(st.integers(0, 2)) == 0:
+        # documented alternative form of physdims: a bounding-box dictionary with a (non-zero) lower corner
+        s["origin"] = [draw(st.sampled_from([0.0, 1.0, -2.5, 0.5, 7.0])) for _ in range(ld)]
+        s["nx_scalar"] = draw(st.booleans())  # 1-d only: nx given as a scalar or as an array of length 1
     if kind in ("poly", "polyx"):
         nq = n[0] * n[1]
         s["split"] = draw(st.lists(st.integers(0, 2), min_size=nq, max_size=nq))
         s["merge"] = draw(st.lists(st.booleans(), min_size=nq, max_size=nq))
     if kind == "polyx":
         s["layers"] = [draw(_f(0.3, 1.5)) for _ in range(draw(st.integers(1, 2)))]
+    if kind == "arrowx":
+        s["n"] = [1, 1, 1]
+        s["notch"] = draw(_f(0.3, 0.7))  # y-position (fraction of Ly) of the reflex vertex of the arrow-head face
     if kind == "gmsh":
         s["h"] = draw(st.sampled_from([0.9, 0.6, 0.45]))
     # perturbation of interior nodes (keeps the domain); 3-d only for simplices (planar faces)
     # (poly / polyx: the 2-d lattice is perturbed, before extrusion, only for loop-oriented incidence,
     # because the index-oriented convex-cell fallback documents convexity as a precondition)
-    can_perturb = perturb and dim >= 2 and kind != "gmsh" and not (dim == 3 and kind not in ("tet", "polyx"))
+    can_perturb = perturb and dim >= 2 and kind not in ("gmsh", "arrowx") and not (dim == 3 and kind not in ("tet", "polyx"))
     if kind in ("poly", "polyx") and s["orient"] == "index":
         can_perturb = False
     if can_perturb and want_perturb:
@@ -235,7 +247,13 @@ def build_grid(spec, compute_geometry=True):
     import porepy as pp
 
     kind, dim, n = spec["kind"], spec["dim"], spec["n"]
-    if kind == "cart":
+    if kind == "cart" and spec.get("origin") is not None:
+        box = {}
+        for ax, o, L in zip("xyz", spec["origin"], spec["phys"]):
+            box[ax + "min"], box[ax + "max"] = float(o), float(o) + float(L)
+        nx = (n[0] if spec.get("nx_scalar") else np.array(n)) if dim == 1 else np.array(n)
+        g = pp.CartGrid(nx, box)
+    elif kind == "cart":
         g = pp.CartGrid(np.array(n), np.array(spec["phys"], dtype=float)) if dim > 1 else pp.CartGrid(
             n[0], spec["phys"][0])
     elif kind == "tensor":
@@ -253,6 +271,19 @@ def build_grid(spec, compute_geometry=True):
             g.compute_geometry()
             z = np.concatenate(([0.0], np.cumsum(spec["layers"])))
             g, _, _ = pp.grid_extrusion.extrude_grid(g, z)
+    elif kind == "arrowx":
+        # one box cell whose top side is divided into four co-planar faces (as for cut-cell grids): the non-convex
+        # arrow-head quadrilateral (0,0),(.5,notch),(1,0),(.5,1) and the three triangles filling the rest
+        Lx, Ly, Lz = spec["phys"]
+        q = spec["notch"]
+        P = np.array([[0, 0, 0], [1, 0, 0], [1, 1, 0], [0, 1, 0], [0, 0, 1], [1, 0, 1], [1, 1, 1], [0, 1, 1],
+                      [0.5, q, 1], [0.5, 1, 1]], dtype=float).T * np.array([[Lx], [Ly], [Lz]])
+        faces = [[0, 3, 2, 1], [0, 1, 5, 4], [1, 2, 6, 5], [2, 3, 7, 9, 6], [3, 0, 4, 7], [4, 8, 5, 9], [4, 5, 8],
+                 [4, 9, 7], [5, 6, 9]]
+        ind = np.array(sum(faces, []))
+        ptr = np.cumsum([0] + [len(f) for f in faces])
+        fn = sps.csc_matrix((np.ones(ind.size, dtype=int), ind, ptr), shape=(P.shape[1], len(faces)))
+        g = pp.Grid(3, P, fn, sps.csc_matrix(np.ones((len(faces), 1), dtype=int)), "ArrowFaceGrid")
     elif kind == "gmsh":
         g = _gmsh_grid(spec)
     else:
@@ -301,6 +332,8 @@ def grid_meta(spec):
         meas = float(np.prod([c[-1] - c[0] for c in spec["coords"]]))
     elif kind == "polyx":
         meas = float(np.prod(spec["phys"]) * sum(spec["layers"]))
+    elif kind == "arrowx":
+        meas = float(np.prod(spec["phys"]))
     else:
         meas = float(np.prod(spec["phys"]))
     if spec.get("affine"):
@@ -310,6 +343,8 @@ def grid_meta(spec):
     labels = [f"dim{dim}", f"kind-{kind}"]
     if spec.get("scale"):
         labels.append("scaled-small" if spec["scale"] < 1 else "scaled-large")
+    if spec.get("origin") is not None:
+        labels.append("cart-box-dict")
     if spec.get("pamp", 0) > 0:
         labels.append("perturbed")
     if spec.get("affine"):
